@@ -137,7 +137,8 @@ def strace_run(sb, args, inject=None, env=None, timeout=60, stdin=None, keep_tra
         tf.unlink()
     cmd = ["strace", "-f", "-y", "-s", "16", "-o", str(tf), "-e", "trace=" + TRACE_SET]
     if inject:
-        cmd += ["-e", "inject=" + inject]
+        for one in ([inject] if isinstance(inject, str) else inject):
+            cmd += ["-e", "inject=" + one]
     cmd += [cli.cli_bin()] + list(args)
     e = dict(core.ENV)
     e.pop("RENAMIFY_YES", None)
